@@ -5,7 +5,7 @@
     any interleaving of their steps. *)
 From Coq Require Import List NArith ZArith Bool String.
 From Verif Require Import Sni.SchedSkel Sni.Registry Sni.RegistryProofs Sni.RegistryGen Gen.ServerSkel.
-From Verif Require Import Sni.RegistryKick Sni.RegistryKickProofs.
+From Verif Require Import Sni.RegistryKick Sni.RegistryKickProofs Sni.RegistryKey.
 Import ListNotations.
 Local Open Scope N_scope.
 
@@ -191,6 +191,46 @@ Theorem C15_front_unmap_refuted :
   end.
 Proof. exact front_unmap_refuted. Qed.
 Print Assumptions C15_front_unmap_refuted.
+
+(** ** The key of the registry is the name itself (Sni/RegistryKey.v) *)
+
+(** Every access of the endpoints map -- lookup, the old-entry lookup, delete
+    and store of upgrade, check and delete of unmap -- uses the name
+    parameter itself as the key. *)
+Theorem C15_registry_key_uniform :
+  gen_registry_key_uniformb = true /\
+  map fst gen_registry_keys =
+    ["Server.endpoint"; "Server.unmap"; "Server.unmap"; "Server.upgrade"; "Server.upgrade"; "Server.upgrade"]%string.
+Proof. exact (conj gen_registry_key_uniform gen_registry_key_sites). Qed.
+Print Assumptions C15_registry_key_uniform.
+
+(** Names that differ -- in the case of one letter, in a trailing dot or
+    slash, in anything -- are independent: a step changes the entry of at
+    most the name it works under. *)
+Theorem C15_names_independent : forall s a s' n',
+  step s a = Some s' -> action_name s a <> Some n' -> lookup_name s' n' = lookup_name s n'.
+Proof. exact names_independent. Qed.
+Print Assumptions C15_names_independent.
+
+(** The seeded change C15-h, kept as a counter-model: lookup and upgrade
+    under a folded key, unmap under the raw name.  A connection named
+    "Tester-7" (8) is stored under "tester-7" (7); it ends on its own, its
+    unmap finds nothing, and both spellings keep resolving to the ended
+    connection; in the model of the source the name is free again. *)
+Theorem C15_folded_key_refuted :
+  match exec_folded fold87 init
+          [AUpgrade 1 8; AConnect 1 5; AServeEnd 1; ADisconnect 1; AUnmap 1; AClose 1] with
+  | Some s =>
+      (exists th, get 1 (threads s) = Some th /\ th_pc th = P6) /\
+      lookup_folded fold87 s 8 = Some 1 /\ lookup_folded fold87 s 7 = Some 1
+  | None => False
+  end /\
+  match exec init [AUpgrade 1 8; AConnect 1 5; AServeEnd 1; ADisconnect 1; AUnmap 1; AClose 1] with
+  | Some s => lookup_name s 8 = None /\ lookup_name s 7 = None
+  | None => False
+  end.
+Proof. exact folded_key_refuted. Qed.
+Print Assumptions C15_folded_key_refuted.
 
 (** * Non-vacuity *)
 
